@@ -163,7 +163,7 @@ class BaseFileWriterSession(BaseWriterSession):
         new_filename = filename + '-new'
 
         with open(new_filename, 'wb') as new_file:
-            new_file.write(response.header())
+            new_file.write(response.to_bytes())
 
             with wpull.util.reset_file_offset(response.body):
                 response.body.seek(0)
